@@ -78,7 +78,8 @@ def bfs[S](
                 queue.append(neighbor)
 
     if is_goal:
-        if iterations >= max_iter:
+        # unfinished only if a node still waits: a queue that ran empty on the last allowed iteration has settled it
+        if queue:
             return Result(None, float("inf"), iterations, len(visited), Status.MAX_ITER)
         return Result(None, float("inf"), iterations, len(visited), Status.INFEASIBLE)
 
@@ -116,7 +117,8 @@ def dfs[S](
                 stack.append(neighbor)
 
     if is_goal:
-        if iterations >= max_iter:
+        # unfinished only if a node still waits: a stack that ran empty on the last allowed iteration has settled it
+        if stack:
             return Result(None, float("inf"), iterations, len(visited), Status.MAX_ITER)
         return Result(None, float("inf"), iterations, len(visited), Status.INFEASIBLE)
 
